@@ -223,12 +223,14 @@ def gen_case(rng, cid, ntypes=None, adversarial=False, ninj=1, nfiles=1, force_a
     return c
 
 
-def transitive_case(rng, cid, shadow_std=False, nfiles=1):
+def transitive_case(rng, cid, shadow_std=False, nfiles=1, other_used=True):
     """A package whose injector must spell types of packages NO file of the user's package imports: they are reached only
     through the signatures of constructors in a library package (lib.NewLogger() *log.Logger, lib.NewStoreConfig()
     *storage/config.Config).  Two packages share the package name `config`, and a file of the user's package that sorts
     AFTER the generated file imports the other one.  Optionally the user's package declares a package-level identifier
-    named like the std package `log`, which only the generated file has to import."""
+    named like the std package `log`, which only the generated file has to import.  other_used=False: the injector does not
+    use the other `config` package at all (only a helper in the later-sorting file does), so the generated file imports
+    just the transitively reached one."""
     c = Case(cid)
     mod = 'scratch/' + cid
     c.files['storage/config/c.go'] = 'package config\n\ntype Config struct{ DSN string }\n'
@@ -241,9 +243,15 @@ def transitive_case(rng, cid, shadow_std=False, nfiles=1):
                              'func NewService(l *log.Logger) *Service { return &Service{L: l} }\n') % mod
     shadow = 'var log = []string{"a package-level identifier named like a package nobody here imports"}\n\n' if shadow_std else ''
     c.files['types.go'] = ('package main\n\n' + shadow + 'type Cache struct{ N int }\n\nfunc NewCache() *Cache { return &Cache{} }\n\nfunc main() {}\n')
-    c.files['zserver.go'] = ('package main\n\nimport (\n\t"%s/lib"\n\t"%s/server/config"\n)\n\n' % (mod, mod) +
-                             'type App struct{ X int }\n\nfunc NewOptions() *config.Options { return &config.Options{} }\n\n'
-                             'func NewApp(o *config.Options, s *lib.Store, sv *lib.Service, ca *Cache) *App { return &App{} }\n')
+    if other_used:
+        c.files['zserver.go'] = ('package main\n\nimport (\n\t"%s/lib"\n\t"%s/server/config"\n)\n\n' % (mod, mod) +
+                                 'type App struct{ X int }\n\nfunc NewOptions() *config.Options { return &config.Options{} }\n\n'
+                                 'func NewApp(o *config.Options, s *lib.Store, sv *lib.Service, ca *Cache) *App { return &App{} }\n')
+    else:
+        c.files['zserver.go'] = ('package main\n\nimport (\n\t"%s/lib"\n\t"%s/server/config"\n)\n\n' % (mod, mod) +
+                                 'type App struct{ X int }\n\ntype Options struct{ Addr string }\n\nfunc ListenAddr() string { return (&config.Options{}).Addr }\n\n'
+                                 'func NewOptions() *Options { return &Options{Addr: ListenAddr()} }\n\n'
+                                 'func NewApp(o *Options, s *lib.Store, sv *lib.Service, ca *Cache) *App { return &App{} }\n')
     body = ('var _ = kessoku.Inject[*App](\n\t"Init%s",\n\tkessoku.Async(kessoku.Provide(lib.NewStoreConfig)),\n\tkessoku.Async(kessoku.Provide(lib.NewLogger)),\n'
             '\tkessoku.Async(kessoku.Provide(lib.NewStore)),\n\tkessoku.Async(kessoku.Provide(lib.NewService)),\n'
             '\tkessoku.Async(kessoku.Provide(NewOptions)),\n\tkessoku.Provide(NewCache),\n\tkessoku.Provide(NewApp),\n)\n') % cid.capitalize()
@@ -255,7 +263,34 @@ def transitive_case(rng, cid, shadow_std=False, nfiles=1):
                  '\tkessoku.Provide(func(l *lib.Store, sv0 *lib.Service) *Cache { return &Cache{} }),\n\tkessoku.Async(kessoku.Provide(lib.NewService)),\n)\n') % cid.capitalize()
         c.files['k1.go'] = 'package main\n\nimport (\n\t"github.com/mazrean/kessoku"\n\t"%s/lib"\n)\n\n%s' % (mod, body2)
         c.invoke = ['k0.go', 'k1.go']
-    c.meta.update({'kind': 'transitive-imports', 'shadow_std': shadow_std, 'ninj': 1, 'nfiles': nfiles, 'types': ['transitive']})
+    c.meta.update({'kind': 'transitive-imports', 'shadow_std': shadow_std, 'other_used': other_used, 'ninj': 1, 'nfiles': nfiles, 'types': ['transitive']})
+    return c
+
+
+def derived_name_case(rng, cid, perm=0, ch_async=False):
+    """Types whose local-variable names coincide with names the generator DERIVES from other variables: `Event` is built in
+    a goroutine and awaited elsewhere (its done-channel is derived from its variable: eventCh) while a user type `EventCh`
+    (variable eventCh) is in the same function; likewise `Item`/`Item0` for the allocator's numeric suffixes.  perm picks
+    the parameter order of the consumer, which decides which of them ends up in a goroutine."""
+    import itertools
+    c = Case(cid)
+    params = [('a', '*Audit'), ('e', '*Event'), ('ch', 'EventCh'), ('i', 'Item'), ('i0', '*Item0')]
+    order = list(itertools.permutations(range(len(params))))[perm % 120]
+    ps = ', '.join('%s %s' % params[k] for k in order)
+    c.files['types.go'] = ('package main\n\ntype Audit struct{ N int }\n\ntype Event struct{ N int }\n\ntype EventCh chan *Event\n\n'
+                           'type Item struct{ N int }\n\ntype Item0 struct{ N int }\n\ntype App struct{ X int }\n\n'
+                           'func NewAudit() *Audit { return &Audit{} }\n\nfunc NewEvent() (*Event, error) { return &Event{}, nil }\n\n'
+                           'func NewEventCh() EventCh { return make(EventCh, 1) }\n\nfunc NewItem() Item { return Item{} }\n\n'
+                           'func NewItem0(a *Audit) *Item0 { return &Item0{} }\n\n'
+                           'func NewApp(%s) *App { return &App{} }\n\nfunc main() {}\n') % ps
+    items = ['kessoku.Async(kessoku.Provide(NewAudit))', 'kessoku.Async(kessoku.Provide(NewEvent))',
+             ('kessoku.Async(kessoku.Provide(NewEventCh))' if ch_async else 'kessoku.Provide(NewEventCh)'),
+             'kessoku.Async(kessoku.Provide(NewItem))', 'kessoku.Async(kessoku.Provide(NewItem0))', 'kessoku.Provide(NewApp)']
+    rng.shuffle(items)
+    c.files['k0.go'] = ('package main\n\nimport "github.com/mazrean/kessoku"\n\nvar _ = kessoku.Inject[*App](\n\t"Init%s",\n\t%s,\n)\n'
+                        % (cid.capitalize(), ',\n\t'.join(items)))
+    c.invoke = ['k0.go']
+    c.meta.update({'kind': 'derived-names', 'perm': perm, 'ch_async': ch_async, 'ninj': 1, 'nfiles': 1, 'types': ['derived']})
     return c
 
 
@@ -280,8 +315,11 @@ def corpus(tier, sd):
     for _ in range(10 if quick else 150):
         cases.append(gen_case(rng, 'm%03d' % n, adversarial=rng.random() < 0.5, ninj=rng.randint(1, 2), nfiles=rng.randint(1, 2)))
         n += 1
-    for k_ in range(2 if quick else 6):
-        cases.append(transitive_case(rng, 'x%03d' % n, shadow_std=(k_ % 2 == 1), nfiles=1 + (k_ // 2) % 2))
+    for k_ in range(4 if quick else 8):
+        cases.append(transitive_case(rng, 'x%03d' % n, shadow_std=(k_ % 2 == 1), nfiles=1 + (k_ // 4) % 2, other_used=(k_ // 2) % 2 == 0))
+        n += 1
+    for k_ in range(6 if quick else 40):
+        cases.append(derived_name_case(rng, 'd%03d' % n, perm=rng.randrange(120), ch_async=(k_ % 2 == 1)))
         n += 1
     for key in ('extptr', 'extval', 'genericext', 'mapext'):
         for asy in ((True,) if quick else (True, False)):
@@ -512,8 +550,10 @@ def names_end_to_end(w, rep, tier, prop):
             for _ in range(3 if tier == 'quick' else 20):
                 cases.append(gen_case(rng, 'n%03d' % n, adversarial=True, ninj=ninj, nfiles=nfiles))
                 n += 1
+    for k in range(6 if tier == 'quick' else 40):
+        cases.append(derived_name_case(rng, 'e%03d' % k, perm=rng.randrange(120), ch_async=(k % 2 == 1)))
     for k in range(2 if tier == 'quick' else 6):
-        cases.append(transitive_case(rng, 'y%03d' % k, shadow_std=True, nfiles=1 + k % 2))
+        cases.append(transitive_case(rng, 'y%03d' % k, shadow_std=True, nfiles=1 + k % 2, other_used=(k // 2) % 2 == 0))
     root, gres, post = run_cases(w, cli, cases, 'c12')
     ok = [c for c in cases if gres[c.id][0] == 0]
     out = names_of_cases(w, rep, root, ok, prop)
